@@ -13,14 +13,18 @@
    ids have no handle.  [hint_of] hands the specification the few mechanism facts
    the interface leaves open (see the head of ArraySpec.v). *)
 From MptV Require Import Base.Mem C04.ArrayModel C04.ArraySpec C04.ArrayHeap C04.ArrayBuf C04.ArrayOps
-  C04.ArrayRefine.
+  C04.ArrayTpl C04.ArrayRefine.
 
-(* One operation (ANY of the 24 operations of [op] -- the C API: append, insert, typed set,
+(* One operation (ANY of the 34 operations of [op] -- the C API: append, insert, typed set,
    slice, reserve, clone/clear, reduce, in-place mpt_buffer_insert/cut/set, printf, string,
    new buffer, flags, slice creation, slice write; the C++ API of mpt++/array.cpp: array
    copy/assignment, append, set(len,data), set(string value), array = slice, slice(array),
    slice::shift, slice::trim -- array::insert, printf, string and slice::write are the C
-   operations) through one handle, any state, any number of handles, any sharing and flags: the model does not fault (no access outside a buffer), the invariant is
+   operations; the class templates of mptcore/array.h (typed_array<T>, unique_array<T>,
+   pointer_array<T>, map<K,V>, each a composition of detach / mpt_buffer_insert / element stores
+   with index arithmetic on C long positions): construction with a length, insert, set,
+   reserve, resize, detach, the read-only methods, pointer_array::compact / swap, map::set
+   -- copy construction / assignment / clear are [OXAssign] / [OClone]) through one handle, any state, any number of handles, any sharing and flags: the model does not fault (no access outside a buffer), the invariant is
    kept, the values of ALL handles afterwards are exactly the specification's: the
    target holds the result of the vector operation, nothing else changed. *)
 Theorem C04_cow_step :
@@ -64,6 +68,35 @@ Theorem C04_ref_inv :
            (run (init n m) ops).
 Proof. exact ref_inv. Qed.
 
+(* ---- class templates of mptcore/array.h (all of the above holds for their operations; in plain terms:) *)
+
+(* get / offset / unused / elements / map::get / map::values change nothing ... *)
+Theorem C04_template_read_only :
+  forall st x, fst (step st (OTRead x)) = st.
+Proof. exact tpl_read_only. Qed.
+
+(* ... and what they return is a function of the value the specification holds for the handle. *)
+Theorem C04_view_is_value :
+  forall st x, view st x = svec (snd (nth x (abs st) (false, None))).
+Proof. exact view_is_value. Qed.
+
+(* typed_array<T>::insert(pos, value) / unique_array<T>::insert(pos) + assignment through a handle of element
+   size tr (any state, any sharing, any flags, any C long position): either the handle afterwards reads its
+   former bytes with the element inserted at element position p (a gap behind the end zero filled, everything
+   behind p kept) or the call is refused and the handle reads what it read before; a position before the first
+   element is refused.  (Every other handle: C04_others_unchanged.) *)
+Theorem C04_template_insert_value :
+  forall st x tr uq pos d,
+    inv st -> x < length (shnd st) -> hsl (hnd st x) = false ->
+    t_ok (sheap st) (hbuf (hnd st x)) tr = true -> length d = tr ->
+    let '(st', out) := step st (OTInsert x tr uq pos d) in
+    match t_at (length (view st x) / tr) pos with
+    | None => out = ORefused /\ view st' x = view st x
+    | Some p => (accepted out = true /\ view st' x = ins (view st x) (p * tr) d) \/
+                (out = ORefused /\ view st' x = view st x)
+    end.
+Proof. exact tpl_insert_value. Qed.
+
 (* ---- non-vacuity *)
 Example C04_init_inv : inv (init 4 2).
 Proof. exact (init_inv 4 2). Qed.
@@ -102,9 +135,78 @@ Example C04_example_refusal :
   snd (step (fst (step (init 1 0) (OAppend 0 [1;2;3]%N))) (OBufCut 0 4 0)) = ORefused.
 Proof. vm_compute. reflexivity. Qed.
 
+(* class templates: a typed_array<uint16-like 2-byte T> shared by copy assignment; insert near the front through the
+   copy keeps the tail of the copy and leaves the original alone; negative position counts from the end *)
+Example C04_example_typed_insert_shared :
+  map (fun r => (map (fun v => svec (snd v)) (abs (fst r)), snd r))
+      (run (init 2 0) [OTInsert 0 2 false (PFwd 0) [1;1]%N; OTInsert 0 2 false PEnd [2;2]%N; OTInsert 0 2 false PEnd [3;3]%N;
+                       OXAssign 1 0; OTInsert 1 2 false (PFwd 1) [9;9]%N; OTInsert 1 2 false (PBack 0) [8;8]%N;
+                       OTInsert 1 2 false (PBack 9) [7;7]%N])
+  = [ ([[1;1]; []], ODone 0 0); ([[1;1;2;2]; []], ODone 0 0); ([[1;1;2;2;3;3]; []], ODone 0 0);
+      ([[1;1;2;2;3;3]; [1;1;2;2;3;3]], ODone 0 0);
+      ([[1;1;2;2;3;3]; [1;1;9;9;2;2;3;3]], ODone 0 0);
+      ([[1;1;2;2;3;3]; [1;1;9;9;2;2;8;8;3;3]], ODone 0 0);
+      ([[1;1;2;2;3;3]; [1;1;9;9;2;2;8;8;3;3]], ORefused) ]%N.
+Proof. vm_compute. reflexivity. Qed.
+
+(* a private block filled exactly to its first allocation step (64 bytes = 2 elements of 32 bytes): the insert in the
+   middle is accepted and moves the data to a larger block *)
+Example C04_example_full_block :
+  let z := repeat 0%N 31 in
+  map (fun r => (map (fun h => match hbuf h with Some i => match hget (sheap (fst r)) i with
+                                                         | Some b => (bused b, bsize b) | None => (0, 0) end
+                                            | None => (0, 0) end) (shnd (fst r)), snd r))
+      (run (init 1 0) [OTResize 0 32 false (PFwd 2); OTInsert 0 32 false (PFwd 1) (5%N :: z)])
+  = [ ([(64, 64)], ODone 0 0); ([(96, 192)], ODone 0 0) ].
+Proof. vm_compute. reflexivity. Qed.
+
+(* unique_array: copies share a NoCopy block; a change through one of them is refused, nobody reads anything else *)
+Example C04_example_unique_shared :
+  map (fun r => (map (fun v => svec (snd v)) (abs (fst r)), snd r))
+      (run (init 2 0) [OTInsert 0 1 true (PFwd 0) [1]%N; OXAssign 1 0; OTInsert 1 1 true (PFwd 0) [2]%N;
+                       OTStore 1 1 true (PFwd 0) [3]%N; OTResize 1 1 true (PFwd 0); OClone 0 None;
+                       OTStore 1 1 true (PBack 0) [3]%N])
+  = [ ([[1]; []], ODone 0 0); ([[1]; [1]], ODone 0 0); ([[1]; [1]], ORefused); ([[1]; [1]], ORefused);
+      ([[1]; [1]], ORefused); ([[]; [1]], ODone 0 2); ([[]; [3]], ODone 0 0) ]%N.
+Proof. vm_compute. reflexivity. Qed.
+
+(* pointer_array (1-byte "pointers" for brevity): compact on shared data makes a private block, swap detaches first;
+   map with 1-byte keys and values: set of an existing key through a copy leaves the original alone *)
+Example C04_example_pointer_map :
+  map (fun r => (map (fun v => svec (snd v)) (abs (fst r)), snd r))
+      (run (init 2 0) [OTResize 0 1 false (PFwd 4); OTStore 0 1 false (PFwd 1) [5]%N; OTStore 0 1 false (PFwd 3) [6]%N;
+                       OXAssign 1 0; OPCompact 1 1; OPSwap 1 1 (Some 0) (Some 1); OPSwap 1 1 (Some 0) (Some 2);
+                       OXAssign 1 0; OPSwap 1 1 (Some 1) (Some 3);
+                       OMSet 0 1 2 [0]%N [9]%N])
+  = [ ([[0;0;0;0]; []], ODone 0 0); ([[0;5;0;0]; []], ODone 0 0); ([[0;5;0;6]; []], ODone 0 0);
+      ([[0;5;0;6]; [0;5;0;6]], ODone 0 0); ([[0;5;0;6]; [5;6]], ODone 0 0); ([[0;5;0;6]; [6;5]], ODone 0 0);
+      ([[0;5;0;6]; [6;5]], ORefused); ([[0;5;0;6]; [0;5;0;6]], ODone 0 0); ([[0;5;0;6]; [0;6;0;5]], ODone 0 0);
+      ([[0;5;0;6]; [0;6;0;5]], OGuard) ]%N.
+Proof. vm_compute. reflexivity. Qed.
+
+Example C04_example_map :
+  map (fun r => (map (fun v => svec (snd v)) (abs (fst r)), snd r))
+      (run (init 2 0) [OMSet 0 1 2 [1]%N [10]%N; OMSet 0 1 2 [2]%N [20]%N; OXAssign 1 0; OMSet 1 1 2 [1]%N [11]%N;
+                       OMSet 1 1 2 [3]%N [30]%N; OTRead 1])
+  = [ ([[1;10]; []], ODone 0 0); ([[1;10;2;20]; []], ODone 0 0); ([[1;10;2;20]; [1;10;2;20]], ODone 0 0);
+      ([[1;10;2;20]; [1;11;2;20]], ODone 0 0); ([[1;10;2;20]; [1;11;2;20;3;30]], ODone 0 0);
+      ([[1;10;2;20]; [1;11;2;20;3;30]], ODone 0 0) ]%N.
+Proof. vm_compute. reflexivity. Qed.
+
+(* the read-only methods as functions of the value *)
+Example C04_example_reads :
+  (elem_at [1;1;2;2;3;3]%N 2 (PBack 0), elem_at [1;1;2;2;3;3]%N 2 (PFwd 3), offset_of [1;1;2;2;3;3]%N 2 [2;2]%N,
+   unused_of [0;0;4;0;0;0]%N 2, map_get [1;10;2;20;1;30]%N 1 2 [1]%N, map_values [1;10;2;20;1;30]%N 1 2 (Some [1]%N),
+   map_values [1;10;2;20;1;30]%N 1 2 None)
+  = (Some [3;3]%N, None, Some 1, 2, Some [10]%N, [10;30]%N, [10;20;30]%N).
+Proof. vm_compute. reflexivity. Qed.
+
 Print Assumptions C04_cow_step.
 Print Assumptions C04_others_unchanged.
 Print Assumptions C04_cow_histories.
 Print Assumptions C04_refused_unchanged.
 Print Assumptions C04_model_no_fault.
 Print Assumptions C04_ref_inv.
+Print Assumptions C04_template_read_only.
+Print Assumptions C04_view_is_value.
+Print Assumptions C04_template_insert_value.
